@@ -22,6 +22,7 @@ long long t1(bool b1, bool b2, char c1, char c2, signed char sc1, unsigned char 
   i1 = (E)-i2;
   if (i1 && pf(i2)) { }
   i1 = E1 < b2 > (i3);
+  pi1 = (int *)new double[u1], static_cast<long double>(ull1);
   i1 = sizeof tf<int>(i2);
   return 0;
 }
